@@ -1,5 +1,6 @@
 import NixModel.Lemmas.C14Exact
 import NixModel.Lemmas.C14Units
+import NixModel.Lemmas.C14Paths
 import Mathlib.Data.List.Nodup
 
 /-!
@@ -160,6 +161,25 @@ theorem C14_reports (f : File) (kind : Kind) (msgs : List Msg) :
   constructor
   · rintro ⟨p, h, hne⟩; exact ⟨⟨p, h⟩, hne⟩
   · rintro ⟨⟨p, h⟩, hne⟩; exact ⟨p, h, hne⟩
+
+/-- **the key names the object**: the entry with path `[bi]` is the check of the `bi`-th block, the entry with path
+`[bi, i]` and kind group / array / tag / multi-tag is the check of the `i`-th such object of that block — an
+inconsistency is reported at exactly the object that has it, not merely at some object -/
+theorem C14_entry_at (f : File) (bi i : Nat) (msgs : List Msg) :
+    (((⟨.block, [bi]⟩ : Key), msgs) ∈ allChecks f ↔ ∃ b, f.blocks[bi]? = some b ∧ msgs = checkEntity b.ent) ∧
+    (((⟨.group, [bi, i]⟩ : Key), msgs) ∈ allChecks f ↔
+      ∃ b, f.blocks[bi]? = some b ∧ ∃ g, b.groups[i]? = some g ∧ msgs = checkEntity g) ∧
+    (((⟨.array, [bi, i]⟩ : Key), msgs) ∈ allChecks f ↔
+      ∃ b, f.blocks[bi]? = some b ∧ ∃ da, b.arrays[i]? = some da ∧ msgs = checkDataArray da) ∧
+    (((⟨.tag, [bi, i]⟩ : Key), msgs) ∈ allChecks f ↔
+      ∃ b, f.blocks[bi]? = some b ∧ ∃ t, b.tags[i]? = some t ∧ msgs = checkTag b.arrays t) ∧
+    (((⟨.mtag, [bi, i]⟩ : Key), msgs) ∈ allChecks f ↔
+      ∃ b, f.blocks[bi]? = some b ∧ ∃ t, b.mtags[i]? = some t ∧ msgs = checkMultiTag b.arrays t) :=
+  ⟨allChecks_block f bi msgs,
+   allChecks_flat f .group bi i msgs (Or.inl rfl),
+   allChecks_flat f .array bi i msgs (Or.inr (Or.inl rfl)),
+   allChecks_flat f .tag bi i msgs (Or.inr (Or.inr (Or.inl rfl))),
+   allChecks_flat f .mtag bi i msgs (Or.inr (Or.inr (Or.inr rfl)))⟩
 
 /-- `validate` returns the reports unless an API read raises; then the first exception propagates -/
 theorem C14_validate (f : File) :
@@ -587,6 +607,84 @@ theorem C14_emits_array (da : DataArray) (m : Msg) (h : m ∈ checkDataArray da)
 theorem C14_traversal_order :
     blockOrder = ["groups", "data_arrays", "tags", "multi_tags", "sources"] ∧ afterBlocks = ["traverse_sections"] := by
   decide
+/-! ## tie to the source: the shape of the check functions
+
+`reportSites` (generated from the AST) lists, for every `ValidationError.<X>` a function refers to, the conditions it
+sits under.  The literals below are what the model's check functions were written from: `checkTag` tests
+`PositionExtentMismatch` outside and the four reference rules inside `if tag.references`, `checkMultiTag` guards the
+two position comparisons by `positions is not None`, … .  Moving a test into or out of a guard, changing a condition,
+or rewriting a verdict helper breaks `lake build` at the theorem of that function. -/
+
+/-- the report sites of the source functions `fns`, in source order -/
+def sitesOf (fns : List String) : List (String × MsgId × List String) := reportSites.filter fun s => fns.contains s.1
+
+theorem C14_shape_tag :
+    sitesOf ["check_tag"] = [
+      ("check_tag", .NoPosition, ["not tag.position"]),
+      ("check_tag", .PositionExtentMismatch, ["tag.extent and len(tag.extent) != len(tag.position)"]),
+      ("check_tag", .PositionDimensionMismatch, ["tag.references", "any((posdim != len(da.shape) for da in tag.references))"]),
+      ("check_tag", .ExtentDimensionMismatch, ["tag.references", "tag.extent", "any((extlen != len(da.shape) for da in tag.references))"]),
+      ("check_tag", .ReferenceUnitsMismatch, ["tag.references", "any((len(ru) != len(tag.units) for ru in refs_units))"]),
+      ("check_tag", .ReferenceUnitsIncompatible, ["tag.references", "not tag_units_match_refs_units(tag.units, refs_units)"]),
+      ("check_tag", .InvalidUnit, ["any((not units.is_si(u) for u in tag.units if u))"])] := by
+  decide
+
+theorem C14_shape_multi_tag :
+    sitesOf ["check_multi_tag"] = [
+      ("check_multi_tag", .NoPositions, ["not positions"]),
+      ("check_multi_tag", .PositionsExtentsMismatch, ["positions is not None and mtag.extents and (positions.shape != mtag.extents.shape)"]),
+      ("check_multi_tag", .PositionsDimensionMismatch, ["mtag.references", "positions is not None", "any((posdim != len(da.shape) for da in mtag.references))"]),
+      ("check_multi_tag", .ExtentsDimensionMismatch, ["mtag.references", "mtag.extents", "any((extdim != len(da.shape) for da in mtag.references))"]),
+      ("check_multi_tag", .ReferenceUnitsMismatch, ["mtag.references", "any((len(ru) != len(mtag.units) for ru in refs_units))"]),
+      ("check_multi_tag", .ReferenceUnitsIncompatible, ["mtag.references", "not tag_units_match_refs_units(mtag.units, refs_units)"]),
+      ("check_multi_tag", .InvalidUnit, ["any((not units.is_si(u) for u in mtag.units if u))"])] := by
+  decide
+
+theorem C14_shape_array :
+    sitesOf ["check_data_array", "check_range_dimension", "check_sampled_dimension"] = [
+      ("check_data_array", .NoDataType, ["not da.data_type"]),
+      ("check_data_array", .DimensionMismatch, ["len(da.dimensions) != len(da.shape)"]),
+      ("check_data_array", .InvalidDimensionIndex, ["for (idx, (dim, datalen)) in enumerate(zip(da.dimensions, da.shape), 1)", "not dim.index or dim.index <= 0"]),
+      ("check_data_array", .IncorrectDimensionIndex, ["for (idx, (dim, datalen)) in enumerate(zip(da.dimensions, da.shape), 1)", "not (not dim.index or dim.index <= 0)", "dim.index != idx"]),
+      ("check_data_array", .RangeDimTicksMismatch, ["for (idx, (dim, datalen)) in enumerate(zip(da.dimensions, da.shape), 1)", "dim.dimension_type == DimensionType.Range", "dim.ticks is not None and len(dim.ticks) != datalen"]),
+      ("check_data_array", .SetDimLabelsMismatch, ["for (idx, (dim, datalen)) in enumerate(zip(da.dimensions, da.shape), 1)", "not (dim.dimension_type == DimensionType.Range)", "not (dim.dimension_type == DimensionType.Sample)", "dim.dimension_type == DimensionType.Set", "dim.labels and len(dim.labels) != datalen"]),
+      ("check_range_dimension", .NoTicks, ["not dim.ticks"]),
+      ("check_range_dimension", .UnsortedTicks, ["not (not dim.ticks)", "not all((ti < tj for ti, tj in zip(dim.ticks[:-1], dim.ticks[1:])))"]),
+      ("check_range_dimension", .InvalidDimensionUnit, ["dim.unit and (not units.is_atomic(dim.unit))"]),
+      ("check_sampled_dimension", .NoSamplingInterval, ["not dim.sampling_interval"]),
+      ("check_sampled_dimension", .InvalidSamplingInterval, ["not (not dim.sampling_interval)", "dim.sampling_interval < 0"]),
+      ("check_sampled_dimension", .InvalidDimensionUnit, ["dim.unit", "not units.is_atomic(dim.unit)"])] := by
+  decide
+
+theorem C14_shape_entities :
+    sitesOf ["check_file", "check_entity", "check_feature", "check_property"] = [
+      ("check_file", .NoDate, ["not nixfile.created_at"]),
+      ("check_feature", .NoID, ["not feat.id"]),
+      ("check_feature", .NoDate, ["feat.created_at is None"]),
+      ("check_feature", .NoData, ["not feat.data"]),
+      ("check_feature", .NoLinkType, ["not feat.link_type"]),
+      ("check_property", .NoID, ["not prop.id"]),
+      ("check_property", .NoName, ["not prop.name"]),
+      ("check_entity", .NoType, ["not entity.type"]),
+      ("check_entity", .NoID, ["not entity.id"]),
+      ("check_entity", .NoName, ["not entity.name"]),
+      ("check_entity", .NoDate, ["entity.created_at is None"])] := by
+  decide
+
+/-- no other function refers to a catalogue identifier -/
+theorem C14_shape_no_other_sites :
+    (reportSites.filter fun s => !["check_data_array", "check_entity", "check_feature", "check_file", "check_multi_tag", "check_property", "check_range_dimension", "check_sampled_dimension", "check_tag"].contains s.1) = [] := by
+  decide
+
+/-- the verdict helpers: `get_dim_units` (one entry per descriptor: its unit, or "" for a unit-less or set descriptor) and
+`tag_units_match_refs_units` (every reference, every zipped pair; both empty: fine; else `units.scalable`; first failure
+decides) — the statements `getDimUnits` / `unitsMatch` transcribe -/
+theorem C14_shape_helpers :
+    helperShapes = [
+      ("get_dim_units", ["unit_list = []", "for dim in data_array.dimensions:", "if dim.dimension_type == DimensionType.Range or dim.dimension_type == DimensionType.Sample:", "unit_list.append(dim.unit if dim.unit else '')", "elif dim.dimension_type == DimensionType.Set:", "unit_list.append('')", "return unit_list"]),
+      ("tag_units_match_refs_units", ["for ref_units in refs_units:", "for tag_unit, ref_unit in zip(tag_units, ref_units):", "if tag_unit == '' and ref_unit == '':", "continue", "if not units.scalable(tag_unit, ref_unit):", "return False", "return True"])] := by
+  decide
+
 /-! ## "no ID set": never reported for an entity (genuine defect, known finding) -/
 
 /-- full statement: validating reports "no ID set" for an object iff its id is missing -/
